@@ -640,7 +640,11 @@ impl Checker {
                 }
             }
             // memory: window and stack
+            // (the destination of shld/shrd is undefined for a count above the operand size, in memory as in a register)
             for (off, init) in [(WIN_OFF, &win), (STACK_OFF, &stack)] {
+                if skip_regs && matches!(mn.as_str(), "shld" | "shrd") {
+                    continue;
+                }
                 let native_mem = self.sb.slice(off, WIN_SIZE);
                 let mut bad = None;
                 for i in 0..WIN_SIZE {
@@ -766,6 +770,13 @@ fn run(ctx: &Ctx) -> Acc {
     };
     let ck = Checker { sb, dis: Dis::new() };
     let thorough = ctx.tier.thorough();
+    // diagnostic only: FV_C01_OPCODES=c0,c1,0fa4 restricts a run to those opcodes (reported as a cap)
+    let only: Option<Vec<Vec<u8>>> = std::env::var("FV_C01_OPCODES").ok().map(|s| {
+        s.split(',').map(|h| (0..h.len() / 2).map(|i| u8::from_str_radix(&h[2 * i..2 * i + 2], 16).unwrap_or(0)).collect()).collect()
+    });
+    if only.is_some() {
+        acc.cap("diagnostic run restricted by FV_C01_OPCODES");
+    }
     for mode64 in [true, false] {
         let tails: Vec<u8> = if thorough { vec![0, 1, 2, 3, 4] } else { vec![1, 4] };
         let mut take = false;
@@ -780,6 +791,11 @@ fn run(ctx: &Ctx) -> Acc {
             }
             if dangerous(&e.opcode, e.modrm) {
                 return;
+            }
+            if let Some(o) = &only {
+                if !o.contains(&e.opcode) {
+                    return;
+                }
             }
             if mode64 && e.opcode.len() == 1 && (0x40..=0x4f).contains(&e.opcode[0]) {
                 return; // REX prefixes, covered through `rex`
